@@ -3,6 +3,7 @@
 cd /verif
 for d in seeded/C*; do
   n=$(basename $d); p=${n:0:3}
+  if grep -q '"superseded": true' $d/meta.json 2>/dev/null; then echo "$n: superseded by a repair (no violation any more), skipped"; continue; fi
   out=$(tools/try_seed.sh $n /verif/$d/patch.diff $p 2>&1 | grep -v conda | grep "VIOLATION" | head -1)
   case "$out" in
     *no-failing-input-found*) echo "$n: no-failing-input-found";;
